@@ -38,11 +38,6 @@ def side_partition(ctx, ev, cname, obj, st, label, payload):
             ok = bool(rets)
             ctx.ob("S2-peer", inst, ok, "the expected peer label is accepted (outcomes: %s)" % outcomes_str(outs) if ok else
                    "a message from the expected peer side is never accepted (outcomes: %s)" % outcomes_str(outs))
-            for o in rets:
-                decs = [t for t in subterms(o.value) if is_app(t, ".bytes_to_element")]
-                ok3 = bool(decs) and all(t.args[1:] == (payload,) for t in decs)
-                ctx.ob("S3", inst, ok3, "finish() decodes exactly the bytes after the side byte" if ok3 else
-                       "finish() decodes something other than the stripped payload: %s" % [show(t, maxdepth=4) for t in decs])
             continue
         ok = not rets and bool(outs)
         if (cname, side) in OFFSIDES:
@@ -93,11 +88,12 @@ def reflection(ctx, ev, cname, obj, st, label, payload, own_out):
                site=o.site, witness=[show(t, maxdepth=5) + "=" + str(p) for t, p in conds])
         if not ok:
             continue
-        rest = [c for c in conds if c != hit]
+        # the refusal must depend on nothing but what precedes the comparison on this path
+        prefix = conds[:conds.index(hit)]
         twin = False
         for r in refl:
             rc = [(t, p) for (t, p, _) in r.state.pc[base:]]
-            if [c for c in rc if c[0] != hit[0]] == rest and (hit[0], not hit[1]) in rc:
+            if rc == prefix + [(hit[0], not hit[1])]:
                 twin = True
         ctx.ob("S4-unconditional", inst, twin,
                "ReflectionThwarted is raised under exactly the complementary condition (no other conjunct)" if twin else
@@ -110,8 +106,7 @@ def check(ctx, world):
         "by the abstract evaluator on cat(byte, payload) for every one of the 256 byte values and on the empty "
         "message - the complete finite domain of the side byte - for the three classes, on the started fresh "
         "instance and on the instance restored by from_serialized(serialize()): a key path exists only for the "
-        "expected peer byte; own-side and A/B-on-Symmetric raise OffSides; everything else raises. S3: the decoded "
-        "bytes are exactly the payload after the side byte. S4: on every key-returning path the path condition "
+        "expected peer byte; own-side and A/B-on-Symmetric raise OffSides; everything else raises. S4: on every key-returning path the path condition "
         "contains 'own outbound element != received element', and a ReflectionThwarted path exists whose condition "
         "differs in exactly that atom (the refusal has no other conjunct); S5: same on restored instances.")
     ctx.min_obligations = 45
